@@ -481,6 +481,43 @@ pub fn generate(
                     });
                 }
             }
+            if want("ent") && !search {
+                // directory-entry durability: every history of length L over two narrow alphabets
+                // (one flat, one with a sub-directory) whose letters only create, sync, move and
+                // remove entries - long enough for establish / move / sync / re-create / crash.
+                let flat = vec![
+                    M::WriteFile("/a", b"AB"),
+                    M::Fsync("/a"),
+                    M::SyncDir("/"),
+                    M::Rename("/a", "/b"),
+                    M::Rename("/b", "/a"),
+                    M::Unlink("/a"),
+                    M::WriteFile("/b", b"Z"),
+                ];
+                let sub = vec![
+                    M::WriteFile("/a", b"AB"),
+                    M::SyncDir("/"),
+                    M::Mkdir("/d"),
+                    M::Rename("/a", "/d/a"),
+                    M::Rename("/d/a", "/a"),
+                    M::SyncDir("/d"),
+                    M::Fsync("/a"),
+                ];
+                let lens: Vec<usize> = if thorough { vec![5, 6] } else { vec![5] };
+                for (name, alpha) in [("entf", &flat), ("ents", &sub)] {
+                    for len in lens.iter() {
+                        enumerate(alpha, *len, &mut |idx| {
+                            let mut ops = vec![];
+                            for i in idx.iter() {
+                                expand(&alpha[*i], "s0", &mut ops);
+                            }
+                            ops.push("s0 crash".into());
+                            ops.push("s0 dump".into());
+                            emit(Case { family: format!("{}{}", name, len), seed, cfg: cfg(0, 0, 1, small_pool()), ops });
+                        });
+                    }
+                }
+            }
             if want("rand") {
                 let n = cases.unwrap_or(if thorough { 6_000 } else if search { 1_500 } else { 2_000 });
                 for i in 0..n {
